@@ -75,6 +75,15 @@ func hEnvelope(creds []vc.VerifiableCredential) Envelope {
 	}
 }
 
+func hKnownEvalError() bool {
+	for _, v := range hVerdicts {
+		if v == hEvalError {
+			return true
+		}
+	}
+	return false
+}
+
 // hWitnessClass labels the path with the (single) witness class its findings belong to. Paths that already
 // carry the class of the pick-without-max panic are not examined further for the other two classes (keeps
 // the (site, class) identities of the findings apart): false.
@@ -85,6 +94,8 @@ func hWitnessClass(def PresentationDefinition, creds []vc.VerifiableCredential, 
 		class = "descriptor map names an input descriptor twice"
 	case len(def.InputDescriptors) == 0 && len(def.SubmissionRequirements) > 0:
 		class = "submission requirements without input descriptors"
+	case hKnownEvalError():
+		class = "constraint evaluation fails on a credential only the verifier evaluates"
 	case hSharedCredential(def, creds):
 		class = "a credential satisfies several descriptors"
 	default:
